@@ -1,6 +1,7 @@
 """Case builders shared by check_C02 / check_C03 / check_C09: turn runs of engine_group into
 Gallina cases for Spec/C02Oracle.v and Spec/C09Oracle.v."""
 import json
+import os
 
 import engine_group as eg
 from engine_trace import HMAP, OTHER
@@ -169,8 +170,21 @@ def store_chain_cases(info):
     return out
 
 
+def directed_runs(tmpd):
+    """the corpus of minimised runs that once failed (runs first)"""
+    import replay_run
+    path = os.path.join(os.path.dirname(os.path.dirname(os.path.abspath(__file__))), "corpus", "engine_runs.json")
+    out = []
+    for case in json.load(open(path))["directed"]:
+        info = replay_run.rerun(case, tmpd)
+        info.profile, info.schedule = "directed", case["schedule"]
+        info.worker_desc = case["task_outcomes"]
+        out.append(info)
+    return out
+
+
 def run_profiles(rng, tmpd, sizes, thorough):
-    infos = []
+    infos = directed_runs(tmpd)
     for profile, n in sizes:
         infos += eg.gen_runs(rng, tmpd, n, profile, thorough=thorough)
     return infos
